@@ -422,7 +422,7 @@ def check_copied_matcher(case, stats):
     d, how = case["dialect"], case["how"]
     D = DIALECTS[d]
     stats.case((d, how), True, sample=case)
-    clone = {"copy": copy.copy, "deepcopy": copy.deepcopy, "pickle": lambda o: pickle.loads(pickle.dumps(o))}[how]
+    clone = {"copy": copy.copy, "deepcopy": copy.deepcopy, "pickle": gh.pickle_clone}[how]
     for header, base in ((False, d), (True, "en" if d != "en" else "fr")):
         m = clone(gh.TokenMatcher(base))
         for cat in STEP_CATS:
